@@ -89,13 +89,54 @@ def scenarios(quick: bool) -> list[tuple[dict, int]]:
     return sc
 
 
+def bfs_scenarios(quick: bool) -> list[dict]:
+    """State-hashing runs (explicit-state BFS over the real world): ANY number of the listed deviation kinds, every caller judged on
+    the transition on which it ends and at every quiescent state."""
+    sc = []
+    soft = ("drop", "dup")
+    for cmd, tos in (("rq30c9_01", (0.5001, 1.5001, 20.0)), ("w2309_01", (20.0,)), ("rq0418_00", (20.0,)), ("i30c9_fake", (20.0,)), ("rq3220_05", (20.0,) if not quick else ())):
+        for to in tos:
+            for wfr in (True, False) if (cmd == "rq30c9_01" and to == 20.0) or not quick else (True,):
+                sc.append({"qos_mode": False, "flat": True, "callers": [caller(cmd, wfr=wfr, timeout=to)], "dev": soft})
+    # third parties' packets with equal / near-equal headers, one kind at a time (any number of them, at any point, among losses)
+    for kind in ("echo_other_gwy", "rply_other_dst", "rply_other_ctx", "rply_other_src"):
+        for cmd in ("rq30c9_01", "rq0418_00") if kind == "rply_other_ctx" or not quick else ("rq30c9_01",):
+            sc.append({"qos_mode": False, "flat": True, "callers": [caller(cmd, wfr=(kind != "echo_other_gwy"), timeout=20.0)], "dev": ("drop", "foreign"), "foreign_kinds": [kind]})
+    # gateway QoS modes: replies not awaited / QoS disabled
+    for mode in (None, True):
+        sc.append({"qos_mode": mode, "flat": True, "callers": [caller("rq30c9_01", timeout=20.0)], "dev": soft})
+    # a reply or echo held in the air while timers fire (late), also across two commands whose headers differ in context only:
+    # the late reply of the first must not be given to the second
+    sc.append({"qos_mode": False, "flat": True, "max_held": 1, "callers": [caller("rq30c9_01", timeout=20.0)], "dev": ("drop", "late") if quick else ("drop", "dup", "late")})
+    sc.append({"qos_mode": False, "flat": True, "max_held": 1, "callers": [caller("rq30c9_01", timeout=0.5001), caller("rq30c9_02", timeout=20.0)], "dev": ("drop", "late")})
+    sc.append({"qos_mode": False, "flat": True, "callers": [caller("rq30c9_01", timeout=1.5001), caller("rq30c9_01", timeout=20.0)], "dev": ("drop",)})
+    # faults of the link itself
+    sc.append({"qos_mode": False, "flat": True, "callers": [caller("rq30c9_01", timeout=20.0), caller("w2309_02", timeout=1.5001)], "dev": ("drop", "wfail", "disc")})
+    if not quick:
+        sc.append({"qos_mode": False, "flat": True, "max_held": 2, "callers": [caller("rq30c9_01", timeout=20.0)], "dev": ("drop", "dup", "late")})
+        sc.append({"qos_mode": False, "flat": True, "callers": [caller("rq30c9_01", timeout=20.0), caller("rq30c9_01", timeout=20.0)], "dev": ("drop", "dup")})
+        sc.append({"qos_mode": False, "flat": True, "callers": [caller("rq30c9_01", timeout=20.0)], "dev": ("drop", "foreign"), "foreign_kinds": ["echo_other_gwy", "rply_other_ctx"]})
+        sc.append({"qos_mode": False, "flat": True, "max_held": 1, "callers": [caller("rq30c9_01", timeout=1.5001), caller("rq30c9_02", timeout=20.0)], "dev": ("drop", "dup", "late")})
+        sc.append({"qos_mode": False, "flat": True, "max_held": 1, "callers": [caller("rq3220_05", timeout=20.0), caller("rq3220_11", timeout=20.0)], "dev": ("drop", "dup", "late")})
+        sc.append({"qos_mode": False, "flat": True, "callers": [caller("rq30c9_01", timeout=20.0), caller("w2309_01", timeout=20.0, prio="HIGH"), caller("rq30c9_02", timeout=0.5001, prio="LOW")], "dev": ("drop", "disc")})
+        sc.append({"qos_mode": False, "flat": True, "callers": [caller("rq30c9_01", timeout=20.0), caller("rq30c9_01", same_as=0, timeout=20.0, start="q")], "dev": ("drop", "dup", "call")})
+        sc.append({"qos_mode": False, "flat": True, "callers": [caller("i30c9_fake", timeout=20.0), caller("rq30c9_02", timeout=20.0)], "dev": ("drop", "dup", "wfail")})
+    return sc
+
+
 def run(ctx) -> None:
     sc = scenarios(ctx.quick)
     total, byD = QC.drive(ctx, PROPERTY, sc)
+    btot, bviol, bper, bout, audits, bad = QC.bfs(ctx, PROPERTY, bfs_scenarios(ctx.quick))
+    for k, v in sorted(bviol.items()):
+        ctx.vcount[k] = ctx.vcount.get(k, 0) + v["count"]
+        ctx.violation(k, v["what"], v["replay"])
+    ctx.nviol_total = getattr(ctx, "nviol_total", 0) + sum(v["count"] for v in bviol.values())
     ctx.coverage.update(
-        states=total.nodes,
-        transitions=max(1, total.nodes - len(sc)),
-        traces_validated_against_impl=total.executions,
+        states=total.nodes + btot["states"],
+        transitions=max(1, total.nodes - len(sc)) + btot["transitions"],
+        traces_validated_against_impl=total.executions + btot["transitions"],
+        state_hashing={"scenarios": bper, "states": btot["states"], "transitions": btot["transitions"], "terminal_states": btot["terminal"], "distinct_terminal_outcomes": bout, "merge_audits": audits, "merge_audits_failed": bad, "scenarios_capped": btot["capped"]},
         executions=total.executions,
         scenarios=len(sc),
         executions_by_deviation_bound={str(k): v for k, v in sorted(byD.items())},
@@ -104,12 +145,14 @@ def run(ctx) -> None:
         distinct_outcomes=len(total.outcomes),
         deviations_taken=dict(total.actions),
         determinism_audits=total.audited,
-        caps_hit=0,
+        caps_hit=btot["capped"],
         exhaustive=True,
         samples=total.samples[:3],
         rule="QoS product (gateway mode x wait_for_reply x max_retries x timeout around every library timer) x every schedule with "
         "deviation cost <= D (loss, dup, reorder, late, just-before-timer, coincident timers, failed write, disconnect, pause, "
-        "foreign near-equal packets, late callers); states = distinct schedule prefixes; each trace is a real execution",
+        "foreign near-equal packets, late callers); states = distinct schedule prefixes; each trace is a real execution. "
+        "state_hashing: explicit-state BFS with state hashing over the same real world (canonical form incl. each caller's elapsed time) - every "
+        "schedule with ANY number of the deviation kinds listed per scenario; each caller judged on the transition on which it ends and at quiescence",
     )
     ctx.assumptions += [
         "loop lateness <= 1 ms; caller time-outs taken from {T-eps, T, T+eps} for each library timer T",
@@ -118,4 +161,6 @@ def run(ctx) -> None:
 
 
 def replay(rep: dict):
+    if rep.get("world") == "qos-bfs":
+        return QC.bfs_replay(PROPERTY, rep)
     return QC.replay(PROPERTY, rep)
